@@ -203,11 +203,66 @@ def one(task):
     return out
 
 
+def alias_task(task):
+    """ONE trash directory reached through two volumes ($vol2/.Trash-$uid is a symbolic link to $vol1/.Trash-$uid, or the
+    same volume is named twice in TRASH_VOLUMES under two spellings): an entry with a relative Path has one location per
+    volume the directory is reached through; trash-list prints them all - and each printed path is a path trash-rm matches
+    and (restore) the path it is offered under"""
+    i = task["i"]
+    drv = driver()
+    w = W()
+    uid = 1000
+    home = w.dir(R + b"/home/u")
+    v1, v2 = R + b"/vol1", R + b"/vol2"
+    w.mount(v1)
+    w.mount(v2)
+    t = v1 + b"/.Trash-%d" % uid
+    w.dir(t, 0o700)
+    w.dir(t + b"/files", 0o700)
+    w.dir(t + b"/info", 0o700)
+    w.file(t + b"/info/e.trashinfo", b"[Trash Info]\nPath=dir/f\nDeletionDate=2021-02-03T04:05:06\n", 0o600)
+    w.file(t + b"/files/e", b"payload")
+    w.file(t + b"/info/other.trashinfo", b"[Trash Info]\nPath=dir/other\nDeletionDate=2021-02-03T04:05:07\n", 0o600)
+    w.file(t + b"/files/other", b"stays")
+    w.link(v2 + b"/.Trash-%d" % uid, [b"../vol1/.Trash-%d" % uid, t][i % 2])
+    env = {"HOME": home}
+    if i % 3 == 2:
+        env["TRASH_VOLUMES"] = v1 + b":" + v2
+    meta = {"entries": [], "tdirs": [(t, None)], "profile": "c20-alias", "payload_kinds": ["file"]}
+
+    def run(cmd, opts=None, args=(), stdin=None):
+        wd = w.world(env=dict(env), uid=uid, cwd=R, cmd=cmd, opts=dict(opts or {}), args=list(args), stdin=stdin, meta=meta)
+        wd["argv"] = cmd_argv(wd)
+        return readcheck.evaluate(wd, drv, oracles=())
+    problems, mism = [], []
+    rl = run("list")
+    mism += [("list", m) for m in rl["mismatch"]]
+    shown = [l.split(b" ", 2)[2] for l in rl["stdout"].split(b"\n") if l.endswith(b"/dir/f")]
+    if sorted(shown) != sorted([v1 + b"/dir/f", v2 + b"/dir/f"]):
+        problems.append("alias: trash-list shows %r for an entry reached through two volumes" % (shown,))
+    for p_ in shown:
+        r3 = run("rm", args=[p_])
+        mism += [("rm", m) for m in r3["mismatch"]]
+        if (t + b"/info/e.trashinfo") in r3["after_state"]:
+            problems.append("trash-rm does not match the path trash-list shows: %r" % p_)
+        if (t + b"/info/other.trashinfo") not in r3["after_state"]:
+            problems.append("trash-rm removed another entry: %r" % p_)
+    rr = run("restore", {"path": b"/", "sort": "date"}, stdin=b"\n")
+    mism += [("restore-listing", m) for m in rr["mismatch"]]
+    for p_ in shown:
+        if (b" " + p_ + b"\n") not in rr["stdout"]:
+            problems.append("listed by trash-list but not offered by trash-restore: %r" % p_)
+    out = {"problems": problems, "mismatch": mism, "tags": ["kind:alias"], "key": ("alias", i), "task": jsonable(dict(task))}
+    if problems or mism:
+        out["case"] = jsonable({"alias": i, "stdout": rl["stdout"][-400:]})
+    return out
+
+
 def run(tier, seed):
     ck = Check("C20", tier, seed)
     info = audit("C20")
     tasks = [{"shape": s, "path": p, "date": d, "kind": k} for (s, p, d) in cases() for k in KINDS]
-    for r in run_tasks(one, tasks):
+    for r in list(run_tasks(one, tasks)) + list(run_tasks(alias_task, [{"i": i} for i in range(6)])):
         if "machinery" in r:
             raise MachineryError(r["machinery"])
         ck.case(r["key"], tags=r["tags"], sample={"case": repr(r["key"])})
@@ -230,7 +285,7 @@ def replay(path):
     tasks += [c["task"] for c in obj.get("disagreeing_cases", []) if c and c.get("task")]
     rc = 0
     for t in tasks:
-        r = one(t)
+        r = one(t) if "shape" in t else alias_task(t)
         print(json.dumps({"problems": r["problems"], "mismatch": r["mismatch"], "key": repr(r["key"])}, indent=1, default=repr))
         if r["problems"] or r["mismatch"]:
             print("VIOLATION property=C20 replay=%s" % path)
